@@ -100,7 +100,7 @@ def read_dispatch(repo, unrec):
     src = read_src(repo, "tracing-core/src/dispatch.rs", unrec)
     d = {"slow": "NoneUnknown", "current": "NoneUnknown", "prior": "PriorUnknown", "restore": "RestoreUnknown",
          "fast": "FastUnknown", "incr": False, "decr": False, "consts": (0, 0, 0), "setg": "CasUnknown",
-         "needs": "None", "withdef": False, "getcur": False}
+         "needs": "None", "withdef": False, "getcur": False, "slow_guard": "GuardUnknown", "current_guard": "GuardUnknown", "sd_enters": False}
 
     def one(name, pred=None):
         bs = [b for b in fn_bodies(src, name) if pred is None or pred(b)]
@@ -116,17 +116,29 @@ def read_dispatch(repo, unrec):
             d["fast"] = "FastWhenNoScope"
         else:
             unrec.append("%s: get_default: fast-path shape not recognised" % W)
-    # get_default_slow
+    # get_default_slow: the None case (variant switch) and how the re-entrancy flag `can_enter` is set back
     b = one("get_default_slow")
     if b is not None:
+        CORE_NEW = "Some(default)=>f(default),None=>f(get_global()),"
+        TAIL = r"\}f\(&Dispatch::none\(\)\)\}\)\.unwrap_or_else\(\|_\|f\(&Dispatch::none\(\)\)\)"
         m = re.fullmatch(r"structEntered<'a>\(&'aCell<bool>\);implDropforEntered<'_>\{(?:#\[inline\])?fndrop\(&mutself\)\{self\.0\.set\(true\);\}\}"
-                         r"CURRENT_STATE\.try_with\(\|state\|\{ifstate\.can_enter\.replace\(false\)\{let_guard=Entered\(&state\.can_enter\);(.*)\}"
-                         r"f\(&Dispatch::none\(\)\)\}\)\.unwrap_or_else\(\|_\|f\(&Dispatch::none\(\)\)\)", b)
-        core = m.group(1) if m else None
-        if core == "letdefault=state.default.borrow();returnmatch&*default{Some(default)=>f(default),None=>f(get_global()),};":
+                         r"CURRENT_STATE\.try_with\(\|state\|\{ifstate\.can_enter\.replace\(false\)\{let_guard=Entered\(&state\.can_enter\);(.*)" + TAIL, b)
+        m2 = re.fullmatch(r"CURRENT_STATE\.try_with\(\|state\|\{ifstate\.can_enter\.replace\(false\)\{letresult=match&\*state\.default\.borrow\(\)\{(.*)\};"
+                          r"state\.can_enter\.set\(true\);returnresult;" + TAIL, b)
+        if m:
+            core = m.group(1)
+            d["slow_guard"] = "GuardRaiiDrop"
+            if core == "letdefault=state.default.borrow();returnmatch&*default{" + CORE_NEW + "};":
+                d["slow"] = "NoneUsesGlobal"
+            elif core == "letmutdefault=state.default.borrow_mut();letdefault=default.get_or_insert_with(||get_global().clone());returnf(&*default);":
+                d["slow"] = "NoneCachesGlobal"
+            else:
+                unrec.append("%s: get_default_slow: shape not recognised" % W)
+        elif m2 and m2.group(1) == CORE_NEW:
+            # recognised, and read as what it is: the flag is set back by a plain statement, i.e. not when the callback unwinds
             d["slow"] = "NoneUsesGlobal"
-        elif core == "letmutdefault=state.default.borrow_mut();letdefault=default.get_or_insert_with(||get_global().clone());returnf(&*default);":
-            d["slow"] = "NoneCachesGlobal"
+            d["slow_guard"] = "GuardResetOnReturn"
+            unrec.append("%s: get_default_slow: `can_enter` is set back by a plain statement after the callback, not by a guard's Drop (not restored on unwind)" % W)
         else:
             unrec.append("%s: get_default_slow: shape not recognised" % W)
     # Entered::current
@@ -225,8 +237,15 @@ def read_dispatch(repo, unrec):
     if gc == ["CURRENT_STATE.try_with(|state|{letentered=state.enter()?;Some(f(&entered.current()))}).ok()?"] and \
             ent == ["ifself.can_enter.replace(false){Some(Entered(self))}else{None}"]:
         d["getcur"] = True
+        # the module-level guard of get_current: `impl Drop for Entered<'_> { fn drop(&mut self) { self.0.can_enter.set(true); } }`
+        drops = [[squash(x) for x in fn_bodies(body, "drop")] for _, body, _, _ in rsparse.find_blocks(src, r"impl\s+Drop\s+for\s+Entered\s*<\s*'_\s*>\s*")]
+        if ["self.0.can_enter.set(true);"] in drops:
+            d["current_guard"] = "GuardRaiiDrop"
+        else:
+            unrec.append("%s: Drop for Entered: does not set can_enter back" % W)
     else:
         unrec.append("%s: get_current / State::enter: shape not recognised" % W)
+    d["sd_enters"] = d["prior"] != "PriorUnknown"     # the recognised shapes of State::set_default begin with `state.can_enter.set(true);`
     return d
 
 
@@ -591,7 +610,10 @@ def main(repo, _unused=None):
          "  d_set_global := %s;" % d["setg"],
          "  d_get_global_needs := %s;" % d["needs"].strip("()"),
          "  d_with_default_is_guard := %s;" % b(d["withdef"]),
-         "  d_get_current_is_entered_current := %s |}." % b(d["getcur"]),
+         "  d_get_current_is_entered_current := %s;" % b(d["getcur"]),
+         "  d_slow_guard := %s;" % d["slow_guard"],
+         "  d_current_guard := %s;" % d["current_guard"],
+         "  d_set_default_enters := %s |}." % b(d["sd_enters"]),
          "",
          "Definition gen_guard : guard_shape := {|",
          "  g_level_enabled := %s;" % coq_list("(%s, %s)" % x for x in (g["level"] or [])),
